@@ -25,7 +25,7 @@ RULE = ("seeded worlds (mask with ring-masked / holes / components families, ani
         "unequal components: |d| from 1e-3 to 100 pixel scales, integer and half-integer multiples of the pixel scale included) x "
         "the entry points below; a case = (world, d); distinct by hash of (mask, scales, o, d); non-trivial = d has two non-zero "
         "unequal components and the mask has masked and unmasked pixels")
-BOUNDS = {"quick": "24 origin pairs x ~45 observed results per pair (+ 4 Hilbert pairs)", "thorough": "4000 origin pairs (+ 256 Hilbert pairs)"}
+BOUNDS = {"quick": "96 origin pairs x ~50 observed results per pair (+ 8 Hilbert pairs)", "thorough": "4000 origin pairs (+ 256 Hilbert pairs)"}
 EXHAUSTIVE = {"quick": False, "thorough": False}
 ASSUMPTIONS = ["coordinates compared with 1e-9*max(pixel scale, |d|, |o|); query points are placed at relative offsets >= 1e-3 pixel inside their pixel",
                "Hilbert image mesh: circular masks only (as the property says) and adapt images affine in position"]
@@ -33,7 +33,7 @@ QUICK_JOBS = 12
 ENTRY = ["Grid2D.from_mask", "derive_grid.all_false", "derive_grid.unmasked", "derive_grid.edge", "derive_grid.border", "Grid2D.blurring_grid_from",
          "Grid2D.padded_grid_from", "OverSamplerUniform.over_sampled_grid", "BorderRelocator.sub_grid", "Mask2D.mask_centre", "geometry.extent",
          "Mask2D.zoom_mask_unmasked", "Array2D.zoomed_around_mask", "Grid2D.grid_2d_radial_projected_from", "Overlay.image_plane_mesh_grid_from",
-         "Mask2D.resized_from", "Imaging.apply_mask", "Imaging.apply_mask(auto-padded)", "Imaging.apply_noise_scaling", "Imaging.apply_noise_scaling(s2n)", "Imaging.apply_over_sampling",
+         "Mask2D.resized_from", "Mask2D.rescaled_from", "Grid2D.subtracted_from", "Imaging.apply_mask", "Imaging.apply_mask(auto-padded)", "Imaging.apply_noise_scaling", "Imaging.apply_noise_scaling(s2n)", "Imaging.apply_over_sampling",
          "Imaging.trimmed_after_convolution_from", "SimulatorImaging.via_image_from", "preprocess.noise_map_with_signal_to_noise_limit_from",
          "geometry.pixel_coordinates_2d_from", "geometry.grid_pixel_indexes_2d_from", "MapperRectangular", "MapperDelaunay",
          "BorderRelocator.relocated_grid_from", "derive_mask.origins"]
@@ -41,9 +41,9 @@ MIN_MONITORS = {"*": dict({"covariance:" + e: 1 for e in ENTRY}, **{"covariance:
 
 
 def plan(tier, seed):
-    n = 24 if tier == "quick" else 4000
-    nh = 4 if tier == "quick" else 256
-    step = 2 if tier == "quick" else 8
+    n = 96 if tier == "quick" else 4000
+    nh = 8 if tier == "quick" else 256
+    step = 4 if tier == "quick" else 8
     units = [{"kind": "pair", "start": s, "stop": min(n, s + step), "w": step} for s in range(0, n, step)]
     units += [{"kind": "hilbert", "start": s, "stop": s + 1, "w": 3} for s in range(nh)]
     return units
@@ -161,6 +161,21 @@ def world(ctx, rng_seed, m, ps, origin, kshape):
     new_shape = (H + int(r.integers(-1, 4)), W + int(r.integers(-1, 4)))
     run("Mask2D.resized_from", lambda: ob.coord("Mask2D.resized_from", "resized_mask.grid", aa.Grid2D.from_mask(mask=mask.resized_from(new_shape=new_shape, pad_value=0).derive_mask.all_false)))
     run("Mask2D.resized_from", lambda: ob.coord("Mask2D.resized_from", "resized_array.grid", aa.Grid2D.from_mask(mask=aa.Array2D(values=vals.copy(), mask=mask).resized_from(new_shape=new_shape).mask.derive_mask.all_false)))
+
+    def rescaled():
+        rm = mask.rescaled_from(rescale_factor=2.0)
+        ob.coord("Mask2D.rescaled_from", "rescaled.origin", np.array(rm.origin))
+        ob.inv("Mask2D.rescaled_from", "rescaled.bits", _np(rm).astype(int))
+        ob.coord("Mask2D.rescaled_from", "rescaled.all_false_grid", rm.derive_grid.all_false)
+    run("Mask2D.rescaled_from", rescaled)
+
+    def subtracted():
+        off = r.normal(size=2) * np.array(ps)
+        gs = aa.Grid2D.from_mask(mask=mask).subtracted_from(offset=tuple(off))
+        ob.coord("Grid2D.subtracted_from", "subtracted.grid", gs)
+        ob.coord("Grid2D.subtracted_from", "subtracted.mask_origin", np.array(gs.mask.origin))
+        ob.coord("Grid2D.subtracted_from", "subtracted.from_mask", aa.Grid2D.from_mask(mask=gs.mask))
+    run("Grid2D.subtracted_from", subtracted)
 
     def dm():
         d_ = mask.derive_mask
